@@ -54,3 +54,7 @@ pub(crate) mod c15 {
 pub(crate) mod c08 {
     include!(concat!(env!("OSRG_RUSTYBGP_VERIF_DIR"), "/hd/ev_c08.rs"));
 }
+#[allow(dead_code, unused_imports, unused_variables, clippy::all)]
+pub(crate) mod c18bmp {
+    include!(concat!(env!("OSRG_RUSTYBGP_VERIF_DIR"), "/hd/ev_c18bmp.rs"));
+}
